@@ -1,5 +1,6 @@
 import RV.C20.Model
 import RV.C20.Text
+import RV.C20.Rewrite
 import RV.Base.Proto
 /-
   C20 driver.  Terms and graph names are naturals owned by the harness (blank nodes 900–999,
@@ -35,7 +36,9 @@ import RV.Base.Proto
     senttext                    -> the request TEXTS the model's writers produce for them (code points per request,
                                    `-` where the text is not modelled: update(), graph operations, user queries)
     decode u cps                -> reader applied to an update request text: `U op;op;…` or `U?`
-    decode q g cps              -> reader applied to a query text sent with default-graph-uri g (`-` none)
+    decode q g cps              -> reader applied to a query text sent with default-graph-uri g (`-` none); a pattern
+                                   query with a trailing VALUES block is shown joined with its row
+    ing g cps                   -> `_insert_named_graph(text, <g>)` as modelled in RV/C20/Rewrite.lean (code points)
 -/
 open RV RV.C20 RV.Proto
 
@@ -298,7 +301,11 @@ def decodeUpdate (st : St) (txt : Str) : String :=
 def decodeQuery (st : St) (g : Option Str) (txt : Str) : String :=
   match readQuery txt with
   | some q => showQueryT st (idOfG st g) q
-  | none => "Q?"
+  | none =>
+    -- a caller's pattern query, possibly with the VALUES block of `initBindings`: the query joined with the row
+    match readQueryB txt with
+    | some (q, bs) => showQueryT st (idOfG st g) (q.joinRow bs)
+    | none => "Q?"
 
 def step (st : St) : List String → St × String
   | ["reset", a, d, h, ro] =>
@@ -326,6 +333,11 @@ def step (st : St) : List String → St × String
     match cps? c with
     | some txt => (st, decodeUpdate st txt)
     | none => (st, "bad-op")
+  | ["ing", g, c] =>
+    -- the Lean model of `_insert_named_graph(text, <g>)`
+    match cps? g, cps? c with
+    | some g, some txt => (st, showCps (insertNamedGraph ('<' :: g ++ ['>']) txt))
+    | _, _ => (st, "bad-op")
   | ["decode", "q", g, c] =>
     match optCps? g, cps? c with
     | some g, some txt => (st, decodeQuery st g txt)
